@@ -3,8 +3,9 @@
 (* Rule book of `meson install` / `uninstall` (property C11), written from *)
 (* docs/markdown/Installing.md, the reference manual entries of            *)
 (* install_data / install_headers / install_man / install_subdir /         *)
-(* install_emptydir / install_symlink / custom_target, Builtin-options.md  *)
-(* (install_umask) and the pinned tests `59 install subdir`,               *)
+(* install_emptydir / install_symlink / custom_target / configure_file,    *)
+(* Builtin-options.md (install_umask), Release-notes-for-0.64.0.md (the    *)
+(* sticky bit) and the pinned tests `59 install subdir`,                   *)
 (* `190 install_mode`, `26 install umask`, test_install_log_content.       *)
 (*                                                                         *)
 (* Declarative formulation: what the tree below DESTDIR must be after one  *)
@@ -33,19 +34,30 @@ Bit(n, k)    == (n \div (2 ^ k)) % 2
 AndNot(m, u) == LET b(k) == IF Bit(m, k) = 1 /\ Bit(u, k) = 0 THEN 2 ^ k ELSE 0
                 IN b(0) + b(1) + b(2) + b(3) + b(4) + b(5) + b(6) + b(7) + b(8) + b(9) + b(10) + b(11)
 HasX(m)      == Bit(m, 0) = 1 \/ Bit(m, 3) = 1 \/ Bit(m, 6) = 1
+\* the mode of an entry is st_mode & 07777: permission bits 0..8 and the special bits
+StickyBit == 9      \* 't' / 'T' in the last triplet
+SgidBit   == 10     \* 's' / 'S' in the group triplet
+SuidBit   == 11     \* 's' / 'S' in the user triplet
+ClearBit(m, k) == m - Bit(m, k) * (2 ^ k)
 
 \* ---- nodes --------------------------------------------------------------------
-\* t: "file" | "dir" | "link";  m: permission bits (0 for links);  l: link target;  c: content id
-File(m, c) == [t |-> "file", m |-> m, l |-> "", c |-> c]
-Dir(m)     == [t |-> "dir",  m |-> m, l |-> "", c |-> ""]
-Link(l)    == [t |-> "link", m |-> 0, l |-> l,  c |-> ""]
+\* t: "file" | "dir" | "link";  m: permission and special bits (0 for links);  l: link target;  c: content id;
+\* u, g: owner and group id (what lstat reports as st_mode & 07777, st_uid, st_gid);  mt: modification time of a file (an
+\* integer, only ever compared; 0 for directories and links, whose times play no role)
+File(m, c, u, g, mt) == [t |-> "file", m |-> m, l |-> "", c |-> c,  u |-> u, g |-> g, mt |-> mt]
+Dir(m, u, g)         == [t |-> "dir",  m |-> m, l |-> "", c |-> "", u |-> u, g |-> g, mt |-> 0]
+Link(l, u, g)        == [t |-> "link", m |-> 0, l |-> l,  c |-> "", u |-> u, g |-> g, mt |-> 0]
+\* what an observer of the tree is promised: everything but the time of an installed file (a copy carries the time of
+\* its origin here; the rule book only needs "not older than the origin" right after installing)
+Obs(T) == [ p \in DOMAIN T |-> [T[p] EXCEPT !.mt = 0] ]
 
 (***************************************************************************)
 (* Options `o` of the configured build:                                    *)
 (*   prefix, bindir, sbindir, libdir, includedir, localedir, datadir,      *)
 (*   mandir : paths (the directory options are relative to the prefix);    *)
 (*   proj : name of the main project;  umask : install_umask, -1 =         *)
-(*   'preserve';  eumask : umask of the process that runs `meson install`. *)
+(*   'preserve';  eumask : umask of the process that runs `meson install`; *)
+(*   uid, gid : effective ids of that process (what it creates is its own).*)
 (*                                                                         *)
 (* Install rule `i` (one installed thing of the build definition):         *)
 (*   kind  "data" | "header" | "man" | "subdir" | "emptydir" | "symlink" | *)
@@ -58,9 +70,13 @@ Link(l)    == [t |-> "link", m |-> 0, l |-> l,  c |-> ""]
 (*   rename (data), pp = preserve_path (data, header), hsub = `subdir:`    *)
 (*   (header), stem/locale/sect (man: source is stem[.locale].sect),       *)
 (*   strip = strip_directory, exf/exd = exclude_files/_directories,        *)
-(*   st    source entries [p, t, m, c] (subdir: relative to the directory, *)
-(*         parents first; file kinds: one entry with p = <<>>)             *)
-(*   mode  install_mode permission bits, -1 = not given                    *)
+(*   st    source entries [p, t, m, c, mt] (subdir: relative to the        *)
+(*         directory, parents first; file kinds: one entry with p = <<>>); *)
+(*         mt = modification time of the (resolved) file                   *)
+(*   mode  install_mode, first element: the nine-character permission      *)
+(*         string as bits 0..11 (special bits included), -1 = not given /  *)
+(*         false;  own, grp  second and third element: owner and group as  *)
+(*         numeric ids (a name stands for its id), -1 = not given / false  *)
 (*   tag   install_tag, "" = not given;  ext = suffix of the installed name*)
 (*   to    pointing_to (symlink);  fl  follow_symlinks: "" | "true" | "false"  *)
 (***************************************************************************)
@@ -93,9 +109,15 @@ FileDest(o, i) == AbsOf(o, InstallDir(o, i)) \o FileRel(i)
 DefaultPerm(o, srcm) ==
     IF o.umask >= 0 THEN AndNot(IF HasX(srcm) THEN 511 ELSE 438, o.umask)   \* 0777 / 0666 masked by install_umask
     ELSE srcm                                                                \* 'preserve': copied from the origin
-ModeOf(o, i, srcm) == IF i.mode >= 0 THEN i.mode ELSE DefaultPerm(o, srcm)
+\* install_mode of a rule that installs files: the declared bits, set-user-ID and set-group-ID included; "the sticky
+\* bit on a file does not do anything and will be ignored" (release notes of 0.64.0: every function but install_emptydir)
+ModeOf(o, i, srcm) == IF i.mode >= 0 THEN ClearBit(i.mode, StickyBit) ELSE DefaultPerm(o, srcm)
+\* owner and group of what the rule installs: as declared, else ("false" = the default) whoever runs the installation
+OwnerOf(o, i) == IF i.own >= 0 THEN i.own ELSE o.uid
+GroupOf(o, i) == IF i.grp >= 0 THEN i.grp ELSE o.gid
 \* a directory made on the way (no origin): default permissions under the effective umask
 NewDirMode(o) == AndNot(511, IF o.umask >= 0 THEN o.umask ELSE o.eumask)
+NewDir(o)     == Dir(NewDirMode(o), o.uid, o.gid)
 
 \* ---- install_subdir -------------------------------------------------------------
 SubBase(o, i) == AbsOf(o, i.dir) \o (IF i.strip THEN <<>> ELSE <<LastOf(i.src)>>)
@@ -109,10 +131,12 @@ Kept(i) == { e \in Rng(i.st) : ~Excluded(i, e) }
 \* what one source entry becomes.  A source that is a symbolic link (t = "link": l = its text, r = "file" / "fixed" when
 \* it resolves to a regular file whose mode/content are m/c, "none" when it dangles) is dereferenced and copied unless
 \* follow_symlinks is false (i.fl = "false"; the default still follows); a dangling link is replicated as it is.
-\* A copied link has no permissions of its own, and installing it changes nothing else.
+\* A copied link has no permissions of its own but it has an owner and a group, and installing it changes nothing else.
+\* LAW (install_mode): the installed entry has exactly the declared mode, owner and group - each of the three where the
+\* rule declares it, otherwise the umask-sanitised mode of the origin / the ids of the installing process.
 EntryNode(o, i, e) ==
-    IF e.t = "link" /\ (e.r = "none" \/ i.fl = "false") THEN Link(e.l)
-    ELSE File(ModeOf(o, i, e.m), e.c)
+    IF e.t = "link" /\ (e.r = "none" \/ i.fl = "false") THEN Link(e.l, OwnerOf(o, i), GroupOf(o, i))
+    ELSE File(ModeOf(o, i, e.m), e.c, OwnerOf(o, i), GroupOf(o, i), e.mt)
 \* leaves: files and links, [p |-> path, n |-> node]
 Leaves(o, i) ==
     CASE i.kind \in {"data", "header", "man", "target"} ->
@@ -120,18 +144,23 @@ Leaves(o, i) ==
       [] i.kind = "subdir" ->
            { [p |-> SubBase(o, i) \o e.p, n |-> EntryNode(o, i, e)] : e \in { x \in Kept(i) : x.t # "dir" } }
       [] i.kind = "symlink" ->
-           { [p |-> AbsOf(o, i.dir) \o <<LastOf(i.src)>>, n |-> Link(i.to)] }
+           { [p |-> AbsOf(o, i.dir) \o <<LastOf(i.src)>>, n |-> Link(i.to, o.uid, o.gid)] }
       [] OTHER -> {}
-\* directories copied from a source directory (install_subdir), [p, m]
+\* directories copied from a source directory (install_subdir), [p, m]: install_mode is "for the installed files", the
+\* directories get default permissions and belong to the installing process
 InnerDirs(o, i) ==
     IF i.kind = "subdir"
     THEN { [p |-> SubBase(o, i) \o e.p, m |-> DefaultPerm(o, e.m)] : e \in { x \in Kept(i) : x.t = "dir" } }
     ELSE {}
-\* directories whose permissions the rule dictates (install_emptydir), [p, m]; m = -1: leave as is / default
+\* directories whose permissions the rule dictates (install_emptydir), [p, m, u, g]; -1: leave as is / default.
+\* The declared bits are taken as they are (set-user-ID, set-group-ID and sticky included).
 ForcedDirs(o, i) ==
     IF i.kind = "emptydir"
-    THEN { [p |-> AbsOf(o, i.dir), m |-> IF i.mode >= 0 THEN i.mode ELSE IF o.umask >= 0 THEN AndNot(511, o.umask) ELSE -1] }
+    THEN { [p |-> AbsOf(o, i.dir), m |-> IF i.mode >= 0 THEN i.mode ELSE IF o.umask >= 0 THEN AndNot(511, o.umask) ELSE -1,
+            u |-> i.own, g |-> i.grp] }
     ELSE {}
+\* what a directory the rules dictate becomes: n = what is there already, or a directory just made
+Forced(n, f) == Dir(IF f.m >= 0 THEN f.m ELSE n.m, IF f.u >= 0 THEN f.u ELSE n.u, IF f.g >= 0 THEN f.g ELSE n.g)
 \* directories that must exist although nothing may be put into them
 BaseDirs(o, i) ==
     CASE i.kind = "subdir"  -> { SubBase(o, i) }
@@ -173,8 +202,10 @@ DirPaths(sel, o)  ==
     \cup UNION { SelfAndAnc(x.p) : x \in AllInner(sel, o) \cup AllForced(sel, o) }
     \cup UNION { SelfAndAnc(b) : b \in UNION { BaseDirs(o, i) : i \in sel } }
 
-\* an existing, unchanged file is kept by --only-changed (the harness makes "not older" coincide with "same content")
-Preserved(T, a, x) == a.oc /\ x.n.t = "file" /\ x.p \in DOMAIN T /\ T[x.p].t = "file" /\ T[x.p].c = x.n.c
+\* --only-changed: "Only overwrite files that are older than the copied file" - an installed file that is not older
+\* than its origin stays as it is, whatever the two contain (its permissions, owner and group are set again)
+Preserved(T, a, x) == a.oc /\ x.n.t = "file" /\ x.p \in DOMAIN T /\ T[x.p].t = "file" /\ T[x.p].mt >= x.n.mt
+KeptNode(T, x) == [x.n EXCEPT !.c = T[x.p].c, !.mt = T[x.p].mt]
 
 \* tree and log after installing into tree T (dry-run: the tree that *would* result is in `would`)
 Install(T, plan, o, a) ==
@@ -185,11 +216,12 @@ Install(T, plan, o, a) ==
         lp     == { x.p : x \in leaves }
         dp     == DirPaths(sel, o)
         newt   == [ p \in DOMAIN T \cup lp \cup dp |->
-                     IF p \in lp THEN (CHOOSE x \in leaves : x.p = p).n
-                     ELSE IF \E f \in forced : f.p = p /\ f.m >= 0 THEN Dir((CHOOSE f \in forced : f.p = p /\ f.m >= 0).m)
+                     IF p \in lp THEN LET x == CHOOSE y \in leaves : y.p = p IN IF Preserved(T, a, x) THEN KeptNode(T, x) ELSE x.n
+                     ELSE IF \E f \in forced : f.p = p
+                          THEN Forced(IF p \in DOMAIN T THEN T[p] ELSE NewDir(o), CHOOSE f \in forced : f.p = p)
                      ELSE IF p \in DOMAIN T THEN T[p]
-                     ELSE IF \E x \in inner : x.p = p THEN Dir((CHOOSE x \in inner : x.p = p).m)
-                     ELSE Dir(NewDirMode(o)) ]
+                     ELSE IF \E x \in inner : x.p = p THEN Dir((CHOOSE x \in inner : x.p = p).m, o.uid, o.gid)
+                     ELSE NewDir(o) ]
         created == (lp \cup dp) \ DOMAIN T
         written == { x.p : x \in { y \in leaves : ~Preserved(T, a, y) } }
     IN [ tree |-> IF a.dry THEN T ELSE newt, would |-> newt, log |-> created \cup written ]
@@ -206,6 +238,9 @@ ConflictFree(plan, o) ==
        /\ \A x, y \in AllForced(plan, o) : x.p = y.p => x = y
        /\ \A x \in AllForced(plan, o) : \A y \in AllInner(plan, o) : x.p # y.p
        /\ \A x, y \in AllInner(plan, o) : x.p = y.p => x.m = y.m
+       \* what is created inside a set-group-ID directory inherits the directory's group (and sub-directories the bit):
+       \* the outcome would depend on the order of the rules, so nothing else is installed below such a directory
+       /\ \A x \in AllForced(plan, o) : (x.m >= 0 /\ Bit(x.m, SgidBit) = 1) => \A q \in lp \cup DirPaths(plan, o) : ~SPfxOf(x.p, q)
 
 \* ---- uninstall: replay the log ------------------------------------------------------------
 HasChild(T, p) == \E q \in DOMAIN T : SPfxOf(p, q)
